@@ -20,6 +20,11 @@ Tie, re-run from VERIF_REPO's working tree on every invocation:
  (H) one log entry per acknowledged command: rounds of non-idempotent commands whose commit the held
      loop-back (hook VerifClusterLoopbackHeld) delays by 0.2-0.95 of ProposalTimeout (3 s, virtual
      clock): entries in the log = commands, no proposal id twice, replies and keyspace = model.
+ (L) late results: a proposal times out while its commit is only held; the commit is released before /
+     exactly at / just after (ERR being written to a slow-reading client) / long after the time-out;
+     the same connection goes on: the timed-out command gets the time-out error, every other reply is
+     that command's own (= standalone = model), no reply precedes its commit, the late command took
+     effect exactly once, one log entry per command.
  (S) three real nodes, ProposalTimeout 3 s, two of them frozen (SIGSTOP) for 1.5 s while an INCR is
      pending on the third: afterwards every node holds exactly 1.
  (R) a single node with 360 acknowledged INCRs in its WAL is killed and restarted (2x; thorough 5x);
@@ -192,6 +197,100 @@ def hold_tie(d, cases, tag="hold"):
         f.update(case_lines=case, readable=memlib.decode_case(case) if case else None, hold=True)
         return res["steps"], f, None
     return res["steps"], None, None
+
+
+def late_tie(d, cases, tag="late"):
+    """Time-outs with the commit only held, released around the time-out instant, slow-reading client,
+    follow-up commands on the same connection.  Obligations, against the standalone run of the same
+    program (which the extracted model replays): the timed-out command is answered with the time-out
+    error (released before the instant: with its own reply; exactly at it: either); EVERY other reply
+    is the reply of that very command; the keyspace is the standalone one (the late command took
+    effect exactly once); one log entry per command; no reply arrives before its command's commit.
+    Returns (n_steps, failing, err)."""
+    from . import c14, memlib
+    text = "".join(c.text() for c in cases)
+    T = gen_cluster.HOLD_TIMEOUT_MS
+    old = c14.PROPOSAL_TIMEOUT_MS
+    c14.PROPOSAL_TIMEOUT_MS = str(T)
+    try:
+        ta, err = c14.run_mode(d, "standalone", text, tag)
+        if err:
+            return 0, None, err
+        mm, err = c14.model_mismatches(d, ta, tag + "_ref")
+        if err or mm:
+            return 0, None, err or "reference run disagrees with the model: %s" % sorted(mm.items())[:1]
+        tc, err = c14.run_mode(d, "clusterhold", text, tag)
+    finally:
+        c14.PROPOSAL_TIMEOUT_MS = old
+    allc = {memlib.case_name(c): c for c in memlib.split_cases(text)}
+    if err:
+        m = re.search(r"at=(\S+) (\d+)", err)
+        return 0, dict(kind="cluster-path-died", detail=err[-1200:], case_lines=allc.get(m.group(1)) if m else None, late=True), None
+    ca, cc = c14.parse_trace(ta), c14.parse_trace(tc)
+    timing = collections.defaultdict(dict)
+    for l in (d / (tc.name + ".timing")).read_text().splitlines():
+        fs = l.split()
+        timing[fs[1]][int(fs[2])] = (int(fs[3]), int(fs[4]), fs[5] == "1")
+    nent = collections.Counter(l.split()[1] for l in (d / (tc.name + ".entries")).read_text().splitlines() if l.startswith("P "))
+    nsteps = 0
+    for name, case in allc.items():
+        sa = [l.partition("|")[2].strip() for l in ca.get(name, []) if l.startswith("S ")]
+        sc = [l.partition("|")[2].strip() for l in cc.get(name, []) if l.startswith("S ")]
+        cmds = [l for l in case if l.startswith("C ")]
+        hist = []
+
+        def fail(kind, **kw):
+            return nsteps, dict(kind=kind, case_lines=case, readable=memlib.decode_case(case), observed=hist[-8:], late=True,
+                                legend="L <ms>: commit held <ms>, client reads only after it was released; H <ms>: commit held, client reads at once; "
+                                       "ProposalTimeout = %d ms (virtual clock)" % T, **kw), None
+        if len(sa) != len(cmds) or len(sc) != len(cmds):
+            return fail("steps-missing", standalone=len(sa), cluster=len(sc), commands=len(cmds))
+        for si, cl in enumerate(cmds):
+            nsteps += 1
+            hold, elapsed, slow = timing[name].get(si + 1, (0, 0, False))
+            args = " ".join(repr(bytes.fromhex(h) if h != "-" else b"")[1:] for h in cl.split()[3:])
+            hist.append("hold=%d ms%s  %s  -> %s  (after %d ms; standalone: %s)" % (hold, " slow-reader" if slow else "", args, sc[si], elapsed, sa[si]))
+            if hold > T:
+                ok = sc[si] == "-E"
+            elif hold == T:
+                ok = sc[si] in ("-E", sa[si])
+            else:
+                ok = sc[si] == sa[si]
+            if not ok:
+                return fail("reply-is-not-the-reply-to-this-command", step=si + 1, command=args, received=sc[si],
+                            expected=("the time-out error" if hold > T else sa[si]),
+                            note="C07_late_result_never_answers_later_command: a result is delivered only to the waiter registered under its id; "
+                                 "once a waiter has given up, the result of its id is dropped")
+            if not slow and not sc[si].startswith("-") and elapsed < hold:
+                return fail("reply-before-the-commit", step=si + 1, command=args, received=sc[si], commit_held_ms=hold, reply_after_ms=elapsed)
+        da = sorted(l for l in ca.get(name, []) if l.startswith("D "))
+        dc = sorted(l for l in cc.get(name, []) if l.startswith("D "))
+        if da != dc:
+            return fail("keyspace-differs-after-late-commits", standalone_only=[l[:120] for l in sorted(set(da) - set(dc))[:3]],
+                        cluster_only=[l[:120] for l in sorted(set(dc) - set(da))[:3]],
+                        note="a command that timed out while its commit was only held must still take effect exactly once")
+        if nent[name] != len(cmds):
+            return fail("log-entries-differ-from-commands", log_entries=nent[name], commands=len(cmds))
+    return nsteps, None, None
+
+
+def shrink_late(d, case_lines):
+    def bad(ls):
+        # kept only if it fails twice in a row: the replay file must reproduce
+        for _ in range(2):
+            n, f, err = late_tie(d, [_Raw(ls)], "lateshrink")
+            if not (f or err):
+                return False
+        return True
+    head, body, tail = case_lines[0], case_lines[1:-1], case_lines[-1]
+    i = 0
+    while i < len(body):
+        cand = body[:i] + body[i + 1:]
+        if any(l.startswith("C ") for l in cand) and bad([head] + cand + [tail]):
+            body = cand
+        else:
+            i += 1
+    return [head] + body + [tail]
 
 
 def shrink_hold(d, case_lines):
@@ -719,7 +818,7 @@ def run(ctx):
         if berr:
             print(berr)
             return 1
-        if r.get("case_lines") and not r.get("hold"):
+        if r.get("case_lines") and not r.get("hold") and not r.get("late"):
             n, diff, err = apply_tie(d, "\n".join(r["case_lines"]) + "\n", "replay")
             print(json.dumps(diff or err or "entriesToApply/publishEntries agree with ready_step on this sequence", indent=1))
             return 1 if (diff or err) else 0
@@ -730,6 +829,10 @@ def run(ctx):
             out = (d / "replay.lin").read_text()
             print(out)
             return 1 if "NONLIN" in out else 0
+        if r.get("late") and r.get("case_lines"):
+            n, f, err = late_tie(d, [_Raw(r["case_lines"])], "replay")
+            print(json.dumps(f or err or "every reply is the reply to its own command; effects applied once", indent=1, default=str)[:3500])
+            return 1 if (f or err) else 0
         if r.get("hold") and r.get("case_lines"):
             n, f, err = hold_tie(d, [_Raw(r["case_lines"])], "replay")
             print(json.dumps(f or err or "every command is in the log once; replies and keyspace are the model's", indent=1, default=str)[:3000])
@@ -792,6 +895,16 @@ def run(ctx):
                 f["case_lines"] = shrink_hold(d, f["case_lines"])
                 from . import memlib
                 f["readable"] = memlib.decode_case(f["case_lines"])
+            failing = f
+    lsteps = 0
+    if not err and not failing:
+        lsteps, f, err = late_tie(d, gen_cluster.gen_c07_late_cases(ctx.seed, 140 if quick else 4000))
+        if f:
+            if f.get("case_lines"):
+                small = shrink_late(d, f["case_lines"])
+                n2, f2, e2 = late_tie(d, [_Raw(small)], "latefinal")
+                if f2:
+                    f = f2
             failing = f
     if not err and not failing:
         ok, log, binary = clusterlib.build_server()
@@ -861,10 +974,10 @@ def run(ctx):
             print("KNOWN-FINDING: property=%s %s %s%s" % (PID, kf["id"], kf["text"], (" [this run: %s]" % obs) if obs else ""))
     tot_ops = sum(v.get("ops", 0) + v.get("burst_ops", 0) for v in vstats)
     cov.update(dict(
-        evaluations=nbatches + tot_ops + nids + rstats.get("startup_commands", 0) + hsteps + sqstats.get("slow_rounds", 0),
+        evaluations=nbatches + tot_ops + nids + rstats.get("startup_commands", 0) + hsteps + lsteps + sqstats.get("slow_rounds", 0),
         ready_batches=nbatches, cluster_scenarios=vstats, client_operations=tot_ops,
         proposal_ids_checked_unique_over_two_process_lives=nids, restart_own_reply=rstats,
-        slow_commit_steps_loopback=hsteps, slow_quorum_rounds_real_nodes=sqstats.get("slow_rounds", 0),
+        slow_commit_steps_loopback=hsteps, late_commit_steps_loopback=lsteps, slow_quorum_rounds_real_nodes=sqstats.get("slow_rounds", 0),
         linearizability_states_explored=sum(v.get("explored", 0) for v in vstats),
         distinct_nontrivial=len(NONTRIVIAL) + sum(v.get("keys", 0) for v in vstats),
         rule="(D) seeded logs of 0-39 entries (commands and leader no-op entries) with index base in {0,1,5,1000,2^32,2^61} and 1-24 Ready batches each, "
